@@ -517,6 +517,43 @@ func checkC08(c *hx.Checker) {
 		expe, erre := ref.Expand(data, tg)
 		add("Expand", nil, []*ref.T{data, ref.I64Vec(tg...)}, expe, erre, true, "op", nil, "large"+fmt.Sprint(tg), "large")
 	}
+	// Concat of many inputs (9, 12, 33), also of different extents on the axis
+	for _, n := range []int{9, 12, 33} {
+		for ax := 0; ax < 2; ax++ {
+			var ins []*ref.T
+			for k := 0; k < n; k++ {
+				sh := []int{2, 2}
+				sh[ax] = 1 + k%3
+				ins = append(ins, recFill(ref.F32, sh, 60+k))
+			}
+			exp, err := ref.Concat(ins, ax)
+			add("Concat", []hx.Attr{hx.AInt("axis", int64(ax))}, ins, exp, err, true, "op", nil, fmt.Sprintf("many-inputs n=%d axis=%d", n, ax), "many-inputs")
+		}
+	}
+	// rank-1 int64 tensors (shape arithmetic inside graphs): negative indices, mixed ranks, whole / partial slices
+	{
+		v := ref.I64Vec(5, 6, 7, 8, 9)
+		for _, iv := range [][]int64{{-1}, {-5}, {-2, 0, 4}, {4, -4}, {0}, {-6}, {5}} {
+			idx := ref.I64Vec(iv...)
+			expg, errg := ref.Gather(v, idx, 0)
+			add("Gather", []hx.Attr{hx.AInt("axis", 0)}, []*ref.T{v, idx}, expg, errg, true, "op", nil, fmt.Sprintf("int64-vector %v", iv), "int64-vector")
+		}
+		sc := &ref.T{DT: ref.I64, Shape: []int{}, V: []uint64{uint64(0xffffffffffffffff)}} // scalar index -1
+		expg, errg := ref.Gather(v, sc, 0)
+		add("Gather", []hx.Attr{hx.AInt("axis", 0)}, []*ref.T{v, sc}, expg, errg, true, "op", nil, "int64-vector scalar index -1", "int64-vector")
+		for _, pair := range [][2]*ref.T{{ref.I64Vec(1, 2), ref.I64Vec(3)}, {ref.I64Vec(1, 2), ref.Distinct(ref.I64, []int{2, 2})}, {ref.Distinct(ref.I64, []int{2, 2}), ref.I64Vec(1, 2)}, {ref.I64Vec(1), ref.Distinct(ref.I64, []int{1, 1})}} {
+			exp, err := ref.Concat([]*ref.T{pair[0], pair[1]}, 0)
+			add("Concat", []hx.Attr{hx.AInt("axis", 0)}, []*ref.T{pair[0], pair[1]}, exp, err, true, "op", nil, fmt.Sprintf("int64 %v ++ %v", pair[0].Shape, pair[1].Shape), "int64-vector")
+		}
+	}
+	// rank-4 image layouts of every numeric type under all 24 perms, all four extents different
+	for _, dt := range []ref.DT{ref.U8, ref.I8, ref.I32, ref.F64} {
+		data := ref.Distinct(dt, []int{2, 3, 4, 5})
+		for _, p := range perms(4) {
+			exp, err := ref.Transpose(data, p, true)
+			add("Transpose", []hx.Attr{hx.AInts("perm", p...)}, []*ref.T{data}, exp, err, true, "op", nil, "layout"+fmt.Sprint(p), "image-layout")
+		}
+	}
 	// index values around 256 (tables of pre-built slicers / small-index fast paths), runs of consecutive indices that
 	// cross zero, and more than 256 indices at once
 	{
